@@ -4,5 +4,6 @@ cd /verif || exit 2
 . ./env.sh
 mkdir -p .bin .cache .work evidence
 ( cd mc && cp -f /repo/go.sum go.sum 2>/dev/null; go build -tags verif -o ../.bin/check ./cmd/check && go build -o ../.bin/probe ./cmd/probe ) || exit 2
+( cd mc && go build -race -tags verif -o ../.bin/check-race ./cmd/check ) || exit 2
 ( cd /repo && go build ./... ) || exit 2
 echo setup ok
